@@ -943,6 +943,44 @@ Section Multi.
     now symmetry.
   Qed.
 
+  Lemma step_accs_fork a t accs c0 : accs_ok a t accs -> settled a accs -> a_used a c0 = false -> c0 <> t ->
+    all_ok a (map (mkEv t) (accs ++ [Fork c0])) /\ aeqm (aupds a (map (mkEv t) (accs ++ [Fork c0]))) a.
+  Proof.
+    intros H Hs Hu Hne. destruct (step_accs_then a t accs (Fork c0) H) as [Hok Heq].
+    { unfold ev_ok. cbn [act tid a_used st_touch]. split; [|exact Hne].
+      rewrite Hu. apply Nat.eqb_neq in Hne. rewrite Hne. now destruct (acts_locs accs). }
+    split; [exact Hok|]. eapply aeqm_trans; [apply aeq_aeqm; exact Heq|].
+    eapply aeqm_trans; [apply aeq_aeqm, fork_st|].
+    eapply aeqm_trans; [|apply st_touch_settled; exact Hs].
+    repeat split; intros; reflexivity.
+  Qed.
+
+  (* the events of thread t leave the lock holdings and the "has events" flag of the OTHER threads alone *)
+  Definition lk_frame (t : thread) (a a' : ast) : Prop :=
+    (forall l t' m, t' <> t -> a_lk a' l t' m = a_lk a l t' m) /\
+    (forall t', t' <> t -> a_used a' t' = a_used a t').
+
+  Lemma lk_frame_refl t a : lk_frame t a a.
+  Proof. split; reflexivity. Qed.
+  Lemma lk_frame_trans t a b c : lk_frame t a b -> lk_frame t b c -> lk_frame t a c.
+  Proof.
+    intros [H1 H2] [G1 G2]. split; intros.
+    - now rewrite G1, H1.
+    - now rewrite G2, H2.
+  Qed.
+  Lemma lk_frame_aupd t a b : lk_frame t a (aupd a (mkEv t b)).
+  Proof.
+    split; cbn [a_lk a_used aupd tid].
+    - intros l t' m Hne. apply Nat.eqb_neq in Hne. unfold lk_upd. cbn [act tid].
+      destruct b; try reflexivity; now rewrite Hne, andb_false_r.
+    - intros t' Hne. apply Nat.eqb_neq in Hne. now rewrite Hne.
+  Qed.
+  Lemma lk_frame_aupds t acts : forall a, lk_frame t a (aupds a (map (mkEv t) acts)).
+  Proof.
+    induction acts as [|b r IH]; intros a; cbn [map aupds fold_left]; [apply lk_frame_refl|].
+    eapply lk_frame_trans; [apply lk_frame_aupd|apply IH].
+  Qed.
+
   (* ---------- an interleaving model that emits admissible steps ---------- *)
   Section Model.
     Variables (cfg mev : Type) (step : cfg -> mev -> option cfg) (emit : cfg -> mev -> list event).
